@@ -44,6 +44,7 @@ void COSyncInit(CO_SYNC *sync, struct CO_NODE_T *node)
     }
     for (i = 0; i < CO_RPDO_N; i++) {
         sync->RPdo[i]  = (CO_RPDO *)0;
+        sync->RFrm[i].Identifier = CO_RPDO_COBID_OFF;
     }
 }
 
@@ -92,7 +93,8 @@ void COSyncRx(CO_SYNC *sync, CO_IF_FRM *frm)
             for (n=0; n < 8; n++) {
                 sync->RFrm[i].Data[n] = frm->Data[n];
             }
-            sync->RFrm[i].DLC = frm->DLC;
+            sync->RFrm[i].DLC        = frm->DLC;
+            sync->RFrm[i].Identifier = frm->Identifier;
             break;
         }
     }
@@ -143,7 +145,10 @@ void COSyncHandler (CO_SYNC *sync)
     }
 
     for (i = 0; i < CO_RPDO_N; i++) {
-        if (sync->RPdo[i] != 0) {
+        if ((sync->RPdo[i] != 0) &&
+            (sync->RFrm[i].Identifier == sync->RPdo[i]->Identifier)) {
+            /* a frame was received since the last SYNC: apply it once */
+            sync->RFrm[i].Identifier = CO_RPDO_COBID_OFF;
             CORPdoWrite(sync->RPdo[i], &sync->RFrm[i]);
             COPdoSyncUpdate(sync->RPdo[i]);
         }
